@@ -68,6 +68,22 @@ CHECKS = {
          "The 12 advertised x preferred cells are enumerated per batch; hellos are generated (extra capabilities incl. look-alikes, prefixes, layouts, session-ids, text before the hello, no hello); decision table, server-side record of the client hello, reported capabilities/session-id and strict decoding of the first RPC are checked under arbitrary segmentation and echo.",
          "Cells exhaustive, everything else sampled; generator restrictions in DESIGN.md 5/C09 (H).",
          "deterministic simulation of NETCONF session establishment; decision-table oracle + strict decoder", "5/C09"),
+ "C14": ("exploration",
+         "The strict x known-hosts cells are enumerated by run index with generated identities; the real standard transport connects through the guarded Dial seam to an in-process golang.org/x/crypto/ssh server that records user, offered passwords/keys and session requests; Open must succeed exactly when the host-key policy and the credentials allow, and nothing may be offered to an unverified host. A second leg runs the system transport over a real pty (stand-in ssh binary printing its argv, and the installed OpenSSH client against the in-process server) -- real components, uncontrolled schedule.",
+         "The standard leg runs free inside the bubble (crypto/ssh has no hook points): verdicts are deterministic, packet traces are not. The Dial seam repeats the three lines after ssh.Dial (DESIGN.md section 8). The OS leg is not deterministic simulation and is labelled so in the evidence.",
+         "deterministic simulation (in-memory connection + in-process ssh server, cells enumerated) plus a real-kernel leg for the system transport", "5/C14"),
+ "C15": ("exploration",
+         "Generated telnet openings (negotiations over all four verbs, two-byte commands, escaped IAC, banner text) sent in random TCP segments with gaps inside the negotiation window, socket timeouts 40 ms .. 30 s on the fake clock; the server's receive log must equal one reply per request and the reads must return the server's data bytes in order.",
+         "Real transport.Telnet through the guarded Dial seam; two-byte commands may be dropped or passed, an escaped IAC may arrive as one or two 0xff.",
+         "deterministic simulation of the telnet transport over an in-memory connection with fake-clock deadlines", "5/C15"),
+ "C16": ("exploration",
+         "Raw byte transparency in both directions for sizes around/above the read size and all 256 byte values, release of a blocked read on close / peer loss, and full CLI and NETCONF sessions over the real telnet and standard-ssh transports (results = ideal-pipe expectations by construction). The system transport runs in the real-kernel leg (pty + stand-in peer in raw mode; OpenSSH client against the in-process server).",
+         "Free-running inside the bubble for the ssh leg (no hooks in crypto/ssh); OS leg: real components, uncontrolled schedule, generous real-time limits.",
+         "deterministic simulation (SimConn, in-process ssh server) + real-kernel leg for the pty transport", "5/C16"),
+ "C17": ("exploration",
+         "All 17 advertised names (and variants) are visited by run index: static consistency checks of the loaded definition, and a session against a device model generated from the definition itself (synthesised prompts, escalate/de-escalate transitions, password steps, on-open/on-close), under seeded segmentation and interleaving, with user options layered on top.",
+         "Static part has no schedule dimension; prompts are synthesised from the patterns by a regexp/syntax walk and re-checked against the compiled pattern.",
+         "enumeration of platforms + deterministic simulation against definition-derived device models", "5/C17"),
 }
 
 NOT_YET = {}  # id -> reason (filled while the framework is being built)
